@@ -1,6 +1,7 @@
 import Driver.Pure
 import Driver.Recv
 import Driver.Prog
+import Driver.Cap
 
 open Driver
 
@@ -21,6 +22,7 @@ def main (args : List String) : IO UInt32 := do
   match args with
   | ["values"] => loop stdin stdout ({} : ValState) valuesStep; return 0
   | ["wire"] => loop stdin stdout ({} : ValState) wireStep; return 0
+  | ["capture"] => loop stdin stdout ({} : CapState) capStep; return 0
   | ["prog"] => loop stdin stdout ({} : ProgState) progStep; return 0
   | ["receiver"] => loop stdin stdout ({} : RecvState) recvStep; return 0
   | ["normalize"] => loop stdin stdout ({} : ValState) normalizeStep; return 0
